@@ -462,6 +462,25 @@ fn run_unit(tier: &str, unit: usize, out: &mut Out) {
                 out.violation(Violation::new(&clause, "1500-module-filters", detail.chars().take(600).collect::<String>(), json!({"kind": "big-roundtrip"})));
             }
         }
+        if unit == 0 {
+            // module names that are legal identifiers but need care in every text form
+            let r = RefSpec {
+                default: Some(LevelFilter::Info),
+                modules: vec![("e\u{301}x".into(), LevelFilter::Debug), ("हिन्दी::สวัสดี".into(), LevelFilter::Trace), ("a".into(), LevelFilter::Off)],
+                regex: None,
+            };
+            out.evaluations += 1;
+            if let Err((clause, _, detail)) = check_roundtrip(&r, true) {
+                out.violation(Violation::new(&clause, "names-with-combining-marks", detail.chars().take(600).collect::<String>(), json!({"kind": "roundtrip", "text": r.text(), "specfile": true})));
+            }
+            // TOML documents with a malformed level: an error, exactly as for the text form
+            for doc in ["global_level = 'inf0'", "global_level = 'verbose'", "global_level = 'info'\n[modules]\n'a' = 'inf0'", "[modules]\n'a' = 'warnn'", "global_level = 'info warn'"] {
+                out.evaluations += 1;
+                if let Ok(spec) = LogSpecification::from_toml(doc) {
+                    out.violation(Violation::new("err!=malformed", "toml-level", format!("from_toml({doc:?}) returned Ok(`{spec}`) although a level is malformed"), json!({"kind": "toml-malformed", "doc": doc})));
+                }
+            }
+        }
         let ns = &name_sets()[unit];
         for r in rt_specs(ns) {
             out.evaluations += 1;
@@ -521,6 +540,13 @@ fn replay(case: &Value) -> Vec<Violation> {
             println!("replay C17: parse({s:?}) -> {:?}", LogSpecification::parse(s).map(|x| x.to_string()));
             println!("reference: {:?}", ref_parse(s));
             report(&mut out, check_parse(s), case.clone(), s);
+        }
+        Some("toml-malformed") => {
+            let doc = case["doc"].as_str().unwrap_or("");
+            println!("replay C17: from_toml({doc:?}) -> {:?}", LogSpecification::from_toml(doc).map(|x| x.to_string()));
+            if let Ok(spec) = LogSpecification::from_toml(doc) {
+                out.violation(Violation::new("err!=malformed", "toml-level", format!("from_toml({doc:?}) returned Ok(`{spec}`)"), case.clone()));
+            }
         }
         Some("big-roundtrip") => {
             println!("replay C17: round trip of the specification with 1500 module filters");
